@@ -214,6 +214,24 @@ func c09Run(c *Ctx) {
 			c09Judge(c, &Case{Gen: "number-shapes", Src: strings.ReplaceAll(form, "%s", lit)})
 		}
 	}
+	// 2c2. only U+000A counts as a line break, also inside strings and comments; a stray character followed by any code point
+	for _, ch := range []string{"\u2028", "\u2029", "\u0085", "\v", "\f", "\r"} {
+		for _, form := range []string{"\"a%sb\" x\ny", "/* a%sb */ x\ny", "// a%sb\nx\ny", "\"%s%s\n%s\" x /* %s\n%s */ y\nz", "a %s b\nc"} {
+			if c.Mine() {
+				c09Judge(c, &Case{Gen: "line-separators", Src: strings.ReplaceAll(form, "%s", ch)})
+			}
+		}
+	}
+	for _, stray := range []string{"@", "#", "\u26a0", "\u2764", "\u00a9", "$", "?"} {
+		for _, r := range []rune{0xfe0f, 0xfe0e, 0x200d, 0x200c, 0x301, 0x9bc, 0x9cd, 0x9be, 0x20e3, 0xe0100, 0x5f, 0x31, 0x9e7, 0x61, 0x995} {
+			for _, form := range []string{"x = %s%cy;", "%s%c", "%s%c%c z", "a %s %cb"} {
+				src := strings.ReplaceAll(strings.ReplaceAll(form, "%s", stray), "%c", string(r))
+				if c.Mine() {
+					c09Judge(c, &Case{Gen: "stray-then-codepoint", Src: src})
+				}
+			}
+		}
+	}
 	// 2d. sizes: texts with hundreds of characters that start no token (one per line, many per line, in
 	// between tokens), very long string literals (one line and many lines), very long identifiers, comments and digit runs
 	for _, n := range []int{1, 99, 100, 101, 150, 400, 2000} {
@@ -304,7 +322,7 @@ func init() {
 		Assumptions: []string{"Go's unicode.IsLetter/IsMark tables define 'letter' and 'combining mark' for both the implementation and the oracle", "a diagnostic for an unterminated string/comment may name any line from its opening to the end of input"},
 		Run:         c09Run,
 		Judge:       c09Judge,
-		MustCount:   func(c *Ctx) []string { return []string{"gen:frag3", "gen:codepoint-form0", "gen:keyword-variants", "gen:operator-then-codepoint", "gen:number-shapes", "gen:sizes", "gen:random-long", "lexerr:char", "lexerr:string", "lexerr:comment", "tok:STRING", "tok:NUMBER", "tok:else", "tok:continue"} },
+		MustCount:   func(c *Ctx) []string { return []string{"gen:frag3", "gen:codepoint-form0", "gen:keyword-variants", "gen:operator-then-codepoint", "gen:number-shapes", "gen:line-separators", "gen:stray-then-codepoint", "gen:sizes", "gen:random-long", "lexerr:char", "lexerr:string", "lexerr:comment", "tok:STRING", "tok:NUMBER", "tok:else", "tok:continue"} },
 		Exhaustive:  func(string) bool { return false },
 	})
 }
